@@ -795,6 +795,10 @@ func (fv *FuncVC) hasVar(st *State, name string) bool {
 func (fv *FuncVC) specFuncApp(f *types.Func, recv *Val, args []Val, sc *SpecScope) Val {
 	full := funcFullName(f.Origin())
 	sig := f.Type().(*types.Signature)
+	if key, ok := fv.pureMethodKey(f); ok {
+		out := fv.pureApp(nil, f, "im$"+key, recv, args, sc.stOrDummy())
+		return out[0]
+	}
 	// receiver adaptation: value receiver called on pointer etc. is not adjusted in specs
 	if fi := fv.w.ByObj[f.Origin()]; fi != nil {
 		if fi.Contract == nil || !fi.Contract.Pure {
